@@ -124,7 +124,7 @@ class C06(ExprProp):
             texts = [M.canonical(toks)] + [M.render(toks, rng) for _ in range(3)]
             for t in dict.fromkeys(texts):
                 c = Case("query " + C.hexs(t), "mixed-language", t)
-                c.group = gi
+                c.group = "mixed:" + texts[0]   # (a key that stays unique when cases of several seeds are merged)
                 cases.append(c)
         # a percentage may be written with blanks between the number and the `%`: any kind and number
         for b_ in ["", " ", "  ", "\t", "\u00a0", "\u202f", "\u2003", "\u000b", " \u00a0", "\u00a0 ", "\n", "\u3000", "\u0085"]:
